@@ -32,8 +32,16 @@ def main():
     if args and args[0].startswith("--letters="):
         letters = args[0].split("=", 1)[1]
         args = args[1:]
+    prefix = "/tmp/mut-"
+    if args and args[0].startswith("--wt="):
+        prefix = args[0].split("=", 1)[1]
+        args = args[1:]
     extra = args
-    wt = "/tmp/mut-" + pid
+    wt = prefix + pid
+    try:
+        summaries = json.load(open(os.path.join(VERIF, "seeded", "summaries.json")))
+    except Exception:
+        summaries = {}
     prop = None
     for line in open(os.path.join(VERIF, "properties.jsonl")):
         p = json.loads(line)
@@ -78,7 +86,7 @@ def main():
         os.makedirs(dest, exist_ok=True)
         shutil.copy(diff, os.path.join(dest, "patch.diff"))
         shutil.copy(demo, os.path.join(dest, "demo.py"))
-        notes = os.path.join(wt, "notes.md" if m in "AB" else "notes2.md")
+        notes = os.path.join(wt, "notes.md" if m in "AB" else "notes2.md" if m in "CD" else "notes3.md")
         if os.path.exists(notes):
             shutil.copy(notes, os.path.join(dest, "notes.md"))
         meta = {
@@ -98,6 +106,10 @@ def main():
             "checks": results,
             "caught_by": caught_by,
         }
+        sm = summaries.get("%s-%s" % (pid, m))
+        if sm:
+            meta["summary"] = sm[0]
+            meta["needs_to_manifest_summary"] = sm[1]
         with open(os.path.join(dest, "meta.json"), "w") as f:
             json.dump(meta, f, indent=1)
 
